@@ -14,7 +14,18 @@ use syn::punctuated::Punctuated;
 use syn::visit_mut::{self, VisitMut};
 use syn::*;
 
+thread_local! {
+    /// set while one function body is being rewritten: an unsupported construct then gives up on that
+    /// body only (it is emitted unrewritten and reported), not on the whole extraction
+    static IN_FN_BODY: std::cell::Cell<bool> = std::cell::Cell::new(false);
+}
+
+struct Unsupported(String);
+
 fn die(msg: &str) -> ! {
+    if IN_FN_BODY.with(|c| c.get()) {
+        std::panic::panic_any(Unsupported(msg.to_string()));
+    }
     eprintln!("vx-extract: UNSUPPORTED: {}", msg);
     exit(2)
 }
@@ -539,6 +550,142 @@ fn fix_macro_paths(ts: TokenStream) -> TokenStream {
     out.into_iter().collect()
 }
 
+// ---------------------------------------------------------------- cfg inside function bodies
+
+/// Evaluates `#[cfg(..)]` on statements, expressions, match arms and struct-literal fields of a function
+/// body for the feature set of this extraction: what is configured out is removed, the attribute of what
+/// stays is removed.  (Without this the generated file would be compiled with no feature at all.)
+struct CfgStrip<'a> {
+    cfg: &'a Cfg,
+    fired: usize,
+}
+
+fn expr_attrs(e: &mut Expr) -> Option<&mut Vec<Attribute>> {
+    Some(match e {
+        Expr::Array(x) => &mut x.attrs,
+        Expr::Assign(x) => &mut x.attrs,
+        Expr::Async(x) => &mut x.attrs,
+        Expr::Await(x) => &mut x.attrs,
+        Expr::Binary(x) => &mut x.attrs,
+        Expr::Block(x) => &mut x.attrs,
+        Expr::Break(x) => &mut x.attrs,
+        Expr::Call(x) => &mut x.attrs,
+        Expr::Cast(x) => &mut x.attrs,
+        Expr::Closure(x) => &mut x.attrs,
+        Expr::Const(x) => &mut x.attrs,
+        Expr::Continue(x) => &mut x.attrs,
+        Expr::Field(x) => &mut x.attrs,
+        Expr::ForLoop(x) => &mut x.attrs,
+        Expr::Group(x) => &mut x.attrs,
+        Expr::If(x) => &mut x.attrs,
+        Expr::Index(x) => &mut x.attrs,
+        Expr::Infer(x) => &mut x.attrs,
+        Expr::Let(x) => &mut x.attrs,
+        Expr::Lit(x) => &mut x.attrs,
+        Expr::Loop(x) => &mut x.attrs,
+        Expr::Macro(x) => &mut x.attrs,
+        Expr::Match(x) => &mut x.attrs,
+        Expr::MethodCall(x) => &mut x.attrs,
+        Expr::Paren(x) => &mut x.attrs,
+        Expr::Path(x) => &mut x.attrs,
+        Expr::Range(x) => &mut x.attrs,
+        Expr::Reference(x) => &mut x.attrs,
+        Expr::Repeat(x) => &mut x.attrs,
+        Expr::Return(x) => &mut x.attrs,
+        Expr::Struct(x) => &mut x.attrs,
+        Expr::Try(x) => &mut x.attrs,
+        Expr::TryBlock(x) => &mut x.attrs,
+        Expr::Tuple(x) => &mut x.attrs,
+        Expr::Unary(x) => &mut x.attrs,
+        Expr::Unsafe(x) => &mut x.attrs,
+        Expr::While(x) => &mut x.attrs,
+        Expr::Yield(x) => &mut x.attrs,
+        _ => return None,
+    })
+}
+
+impl<'a> CfgStrip<'a> {
+    fn has_cfg(attrs: &[Attribute]) -> bool {
+        attrs.iter().any(|a| a.path().is_ident("cfg") || a.path().is_ident("cfg_attr"))
+    }
+    /// true if the thing stays; removes its cfg attributes then
+    fn decide(&mut self, attrs: &mut Vec<Attribute>) -> bool {
+        if !Self::has_cfg(attrs) {
+            return true;
+        }
+        if attrs.iter().any(|a| a.path().is_ident("cfg_attr")) {
+            die("cfg_attr inside a function body");
+        }
+        self.fired += 1;
+        if !self.cfg.keep(attrs) {
+            return false;
+        }
+        attrs.retain(|a| !a.path().is_ident("cfg"));
+        true
+    }
+}
+
+impl<'a> VisitMut for CfgStrip<'a> {
+    fn visit_block_mut(&mut self, b: &mut Block) {
+        let stmts = std::mem::take(&mut b.stmts);
+        for mut st in stmts {
+            let keep = match &mut st {
+                Stmt::Local(l) => self.decide(&mut l.attrs),
+                Stmt::Expr(e, _) => match expr_attrs(e) {
+                    Some(a) => self.decide(a),
+                    None => true,
+                },
+                Stmt::Macro(m) => self.decide(&mut m.attrs),
+                Stmt::Item(it) => {
+                    let has = match it {
+                        Item::Fn(f) => Self::has_cfg(&f.attrs),
+                        Item::Const(c) => Self::has_cfg(&c.attrs),
+                        Item::Use(u) => Self::has_cfg(&u.attrs),
+                        _ => false,
+                    };
+                    if has {
+                        die("cfg on an item nested in a function body");
+                    }
+                    true
+                }
+            };
+            if keep {
+                b.stmts.push(st);
+            }
+        }
+        visit_mut::visit_block_mut(self, b);
+    }
+    fn visit_expr_match_mut(&mut self, m: &mut ExprMatch) {
+        let arms = std::mem::take(&mut m.arms);
+        for mut a in arms {
+            if self.decide(&mut a.attrs) {
+                m.arms.push(a);
+            }
+        }
+        visit_mut::visit_expr_match_mut(self, m);
+    }
+    fn visit_expr_struct_mut(&mut self, st: &mut ExprStruct) {
+        let fields = std::mem::take(&mut st.fields);
+        for mut f in fields.into_iter() {
+            if self.decide(&mut f.attrs) {
+                st.fields.push(f);
+            }
+        }
+        visit_mut::visit_expr_struct_mut(self, st);
+    }
+    fn visit_expr_mut(&mut self, e: &mut Expr) {
+        // an expression in operand position that is configured out cannot simply be removed
+        if let Some(a) = expr_attrs(e) {
+            if Self::has_cfg(a) {
+                if !self.decide(a) {
+                    die("cfg on an expression in operand position evaluates to false");
+                }
+            }
+        }
+        visit_mut::visit_expr_mut(self, e);
+    }
+}
+
 fn process_fn_body(
     file: &str,
     key: &str,
@@ -548,8 +695,13 @@ fn process_fn_body(
     sig: &mut Signature,
     rw: &mut Rewriter,
     out: &mut Out,
+    cfg: &Cfg,
 ) {
     rw.fired.clear();
+    // cfg attributes inside the body are evaluated first, also for a body that is later emitted unrewritten
+    let mut cs = CfgStrip { cfg, fired: 0 };
+    cs.visit_block_mut(block);
+    let cfg_fired = cs.fired;
     rw.fresh = 0; // fresh names are numbered per function, so an edit elsewhere cannot shift them
     // R7: argument-position `impl Trait` is an anonymous generic parameter: name it
     let mut k = 0;
@@ -570,12 +722,32 @@ fn process_fn_body(
         sig.generics.params.push(p);
     }
     let r7 = rw.fired.clone();
-    rw.visit_signature_mut(sig);
-    rw.visit_block_mut(block);
-    let mut cf = ClosureFinder { found: false };
-    syn::visit::Visit::visit_block(&mut cf, block);
-    if cf.found {
-        die(&format!("{}: a closure survives the rewrite rules", key));
+    let (sig0, block0) = (sig.clone(), block.clone());
+    IN_FN_BODY.with(|c| c.set(true));
+    let res = std::panic::catch_unwind(std::panic::AssertUnwindSafe(|| {
+        rw.visit_signature_mut(sig);
+        rw.visit_block_mut(block);
+        let mut cf = ClosureFinder { found: false };
+        syn::visit::Visit::visit_block(&mut cf, block);
+        if cf.found {
+            die(&format!("{}: a closure survives the rewrite rules", key));
+        }
+    }));
+    IN_FN_BODY.with(|c| c.set(false));
+    if let Err(e) = res {
+        let msg = match e.downcast::<Unsupported>() {
+            Ok(u) => u.0,
+            Err(e) => std::panic::resume_unwind(e),
+        };
+        // the body is emitted exactly as written; the verifier cannot read it, so the function ends up
+        // quarantined (contract kept, body assumed) and the properties it carries stay undecided
+        *sig = sig0;
+        *block = block0;
+        rw.fired = r7.clone();
+        out.report.push(serde_json::json!({
+            "key": key, "file": file, "line": line, "src_hash": hash_tokens(&orig), "rewrites": {}, "unrewritten": msg,
+        }));
+        return;
     }
     let mut fired = rw.fired.clone();
     let _ = r7;
@@ -583,6 +755,9 @@ fn process_fn_body(
     let mut counts: BTreeMap<String, usize> = BTreeMap::new();
     for f in fired {
         *counts.entry(f).or_insert(0) += 1;
+    }
+    if cfg_fired > 0 {
+        counts.insert("R0:cfg-in-body".into(), cfg_fired);
     }
     out.report.push(serde_json::json!({
         "key": key, "file": file, "line": line, "src_hash": hash_tokens(&orig), "rewrites": counts,
@@ -666,7 +841,7 @@ fn process_items(file: &str, items: Vec<Item>, cfg: &Cfg, rw: &mut Rewriter, out
                 let key = format!("fn {}", f.sig.ident);
                 let line = f.sig.ident.span().start().line;
                 rw.self_ty = String::new();
-                process_fn_body(file, &key, line, orig, &mut f.block, &mut f.sig, rw, out);
+                process_fn_body(file, &key, line, orig, &mut f.block, &mut f.sig, rw, out, cfg);
                 out.items.push(Item::Fn(f));
             }
             Item::Impl(mut im) => {
@@ -720,7 +895,7 @@ fn process_items(file: &str, items: Vec<Item>, cfg: &Cfg, rw: &mut Rewriter, out
                                 let key = format!("fn <{} as From<{}>>::from", st, a);
                                 let line = f.sig.ident.span().start().line;
                                 rw.self_ty = st.clone();
-                                process_fn_body(file, &key, line, orig, &mut block, &mut sig, rw, out);
+                                process_fn_body(file, &key, line, orig, &mut block, &mut sig, rw, out, cfg);
                                 out.dropped.insert("R3b: impl From<A> for B emitted as free fn from_A_for_B".into());
                                 out.items.push(Item::Fn(ItemFn { attrs: vec![], vis: parse_quote!(pub), sig, block: Box::new(block) }));
                             }
@@ -754,7 +929,7 @@ fn process_items(file: &str, items: Vec<Item>, cfg: &Cfg, rw: &mut Rewriter, out
                             };
                             let line = f.sig.ident.span().start().line;
                             rw.self_ty = st.clone();
-                            process_fn_body(file, &key, line, orig, &mut f.block, &mut f.sig, rw, out);
+                            process_fn_body(file, &key, line, orig, &mut f.block, &mut f.sig, rw, out, cfg);
                             new_items.push(ImplItem::Fn(f));
                         }
                         ImplItem::Type(t) => new_items.push(ImplItem::Type(t)),
@@ -798,6 +973,12 @@ fn collect_item_types(items: &[Item], map: &mut HashMap<String, Type>) {
 }
 
 fn main() {
+    let default_hook = std::panic::take_hook();
+    std::panic::set_hook(Box::new(move |info| {
+        if info.payload().downcast_ref::<Unsupported>().is_none() {
+            default_hook(info);
+        }
+    }));
     let args: Vec<String> = std::env::args().collect();
     let mut repo = String::from("/repo");
     let mut expanded = String::new();
